@@ -84,63 +84,68 @@ pub fn rna_revcomp<const N: usize>() {
     core::mem::forget(rr);
 }
 
-/// Alphabet = symbolic subset of CAND (concrete candidate bytes): membership, len, max_symbol, rank transform.
+/// Alphabet = every non-empty subset of CAND (enumerated with concrete control flow inside the harness, so the BitSet /
+/// VecMap shapes stay concrete); text and the queried member are symbolic: membership, len, max_symbol, rank transform.
 #[cfg(kani)]
 pub fn alphabet_ranks<const C: usize, const T: usize>(cand: [u8; C]) {
-    let pick: [bool; C] = kani::any();
-    let mut a = Alphabet::new(&[] as &[u8]);
-    let mut n = 0usize;
-    let mut i = 0;
-    while i < C {
-        if pick[i] {
-            a.insert(cand[i]);
-            n += 1;
-        }
-        i += 1;
-    }
-    assert!(a.len() == n, "C20: alphabet size");
-    assert!(a.is_empty() == (n == 0));
-    // is_word(t) <=> every symbol of t is a member
-    let t: [u8; T] = kani::any();
-    let mut all = true;
-    let mut j = 0;
-    while j < T {
-        let mut member = false;
+    let mut mask = 1usize;
+    while mask < (1 << C) {
+        let mut a = Alphabet::new(&[] as &[u8]);
+        let mut n = 0usize;
         let mut i = 0;
         while i < C {
-            if pick[i] && cand[i] == t[j] {
-                member = true;
+            if mask & (1 << i) != 0 {
+                a.insert(cand[i]);
+                n += 1;
             }
             i += 1;
         }
-        all = all && member;
-        j += 1;
-    }
-    assert!(a.is_word(t.iter()) == all, "C20: is_word differs from per-symbol membership");
-    // rank transform: rank(c) = number of members smaller than c  (order-preserving bijection onto 0..n)
-    kani::assume(n > 0);
-    let rt = RankTransform::new(&a);
-    let x: usize = kani::any();
-    kani::assume(x < C && pick[x]);
-    let mut smaller = 0u8;
-    let mut maxsym = 0u8;
-    let mut i = 0;
-    while i < C {
-        if pick[i] && cand[i] < cand[x] {
-            smaller += 1;
+        assert!(a.len() == n, "C20: alphabet size");
+        assert!(!a.is_empty());
+        // is_word(t) <=> every symbol of t is a member
+        let t: [u8; T] = kani::any();
+        let mut all = true;
+        let mut j = 0;
+        while j < T {
+            let mut member = false;
+            let mut i = 0;
+            while i < C {
+                if mask & (1 << i) != 0 && cand[i] == t[j] {
+                    member = true;
+                }
+                i += 1;
+            }
+            all = all && member;
+            j += 1;
         }
-        if pick[i] && cand[i] > maxsym {
-            maxsym = cand[i];
+        assert!(a.is_word(t.iter()) == all, "C20: is_word differs from per-symbol membership");
+        // rank transform: rank(c) = number of members smaller than c  (order-preserving bijection onto 0..n)
+        let rt = RankTransform::new(&a);
+        let x: usize = kani::any();
+        kani::assume(x < C && mask & (1 << x) != 0);
+        let mut smaller = 0u8;
+        let mut maxsym = 0u8;
+        let mut i = 0;
+        while i < C {
+            if mask & (1 << i) != 0 && cand[i] < cand[x] {
+                smaller += 1;
+            }
+            if mask & (1 << i) != 0 && cand[i] > maxsym {
+                maxsym = cand[i];
+            }
+            i += 1;
         }
-        i += 1;
+        assert!(rt.get(cand[x]) == smaller, "C20: rank is not the order-preserving bijection onto 0..|A|");
+        assert!(a.max_symbol() == Some(maxsym), "C20: max_symbol");
+        if mask + 1 == (1 << C) {
+            kani::cover!(all, "a word over the full candidate alphabet");
+            kani::cover!(!all, "a non-word");
+            kani::cover!(smaller as usize == n - 1, "largest symbol queried");
+        }
+        core::mem::forget(rt);
+        core::mem::forget(a);
+        mask += 1;
     }
-    assert!(rt.get(cand[x]) == smaller, "C20: rank is not the order-preserving bijection onto 0..|A|");
-    assert!(a.max_symbol() == Some(maxsym), "C20: max_symbol");
-    kani::cover!(all && n >= 2, "a word over an alphabet with at least two symbols");
-    kani::cover!(!all, "a non-word");
-    kani::cover!(smaller as usize == n - 1 && n >= 3, "largest of at least three symbols");
-    core::mem::forget(rt);
-    core::mem::forget(a);
 }
 
 /// gc_content / gc3_content: one IEEE division of exact counts.
@@ -168,8 +173,12 @@ pub fn gc<const N: usize>() {
     assert!(got == cnt as f32 / N as f32, "C20: gc_content is not count/len");
     let got3 = gc3_content(s.iter());
     assert!(got3 == cnt3 as f32 / l3 as f32, "C20: gc3_content is not count/len over every third base");
-    kani::cover!(cnt == 1 && N >= 2, "exactly one G/C");
-    kani::cover!(cnt3 < cnt, "G/C off the third-base grid");
+    if N >= 2 {
+        kani::cover!(cnt == 1, "exactly one G/C");
+        kani::cover!(cnt3 < cnt, "G/C off the third-base grid");
+    } else {
+        kani::cover!(cnt == 1, "G/C");
+    }
 }
 
 use crate::inst;
@@ -179,9 +188,9 @@ inst!(c20_dna_revcomp_n1, 258, dna_revcomp::<1>());
 inst!(c20_dna_revcomp_n3, 258, dna_revcomp::<3>());
 inst!(c20_rna_revcomp_n3, 258, rna_revcomp::<3>());
 inst!(c20_dna_revcomp_n4, 258, dna_revcomp::<4>());
-inst!(c20_alphabet_c4_t3, 12, alphabet_ranks::<4, 3>([b'A', b'C', b'G', b'T']));
-inst!(c20_alphabet_c5_t2, 12, alphabet_ranks::<5, 2>([0u8, b'$', b'A', b'a', 255u8]));
-inst!(c20_alphabet_c6_t3, 12, alphabet_ranks::<6, 3>([0u8, 31u8, 32u8, 63u8, 64u8, 255u8]));
+inst!(c20_alphabet_c4_t3, 20, alphabet_ranks::<4, 3>([b'A', b'C', b'G', b'T']));
+inst!(c20_alphabet_c5_t2, 36, alphabet_ranks::<5, 2>([0u8, b'$', b'A', b'a', 255u8]));
+inst!(c20_alphabet_c3_t2, 12, alphabet_ranks::<3, 2>([31u8, 32u8, 255u8]));
 inst!(c20_gc_n1, 10, gc::<1>());
 inst!(c20_gc_n4, 10, gc::<4>());
 inst!(c20_gc_n6, 10, gc::<6>());
